@@ -260,6 +260,27 @@ def main():
             p.values[:] = rng.randint(-3, 4, size=p.values.shape)
             v = p.interpolate()            # (1, q, c)
             out.write({"id": rid, "kind": "dual", "nt": True, "percell": [q(v[0, :, c], S) for c in range(v.shape[-1])]})
+    # cell-wise constant means ONE INDEPENDENT unknown per cell -- also on a mesh whose cells all start with the same point, and
+    # also after somebody has asked for a connected dual field of the same region class before (options must not leak between calls)
+    for hist in ("fresh", "after-connected"):
+        rid = "dual-independent-" + hist
+        if out.want(rid):
+            base_mesh = fem.Rectangle(n=3)
+            cells = np.array([[4, 3, 0, 1], [4, 1, 2, 5], [4, 7, 6, 3], [4, 5, 8, 7]])       # same cells, each numbered from the centre point
+            mesh = fem.Mesh(base_mesh.points, cells, "quad")
+            region = fem.RegionQuad(mesh)
+            if hist == "after-connected":
+                fem.FieldDual(region, disconnect=False)
+            fc = fem.FieldsMixed(region, n=3)
+            vals = []
+            for k in (1, 2):
+                fld = fc.fields[k]
+                fld.values[:] = np.arange(fld.values.shape[0]).reshape(fld.values.shape) + 1.0
+                vals.append(fld.interpolate())
+            out.write({"id": rid, "kind": "dualindep", "nt": True, "ncells": int(mesh.ncells),
+                       "nunknowns": [int(fc.fields[1].values.shape[0]), int(fc.fields[2].values.shape[0])],
+                       "percell": [q(v[0, :, c], S) for v in vals for c in range(v.shape[-1])],
+                       "cellvalue": [[q(v[0, 0, c], S)[0] for c in range(v.shape[-1])] for v in vals]})
     # field kinds: plane strain padding, axisymmetric hoop entry
     for kindname, cls in (("planestrain", fem.FieldPlaneStrain), ("axisymmetric", fem.FieldAxisymmetric)):
         for how in ("plain", "perturbed"):
